@@ -289,7 +289,11 @@ func processLog(shardDir string, info *CompactedFileInfo, lockPath *string, engi
 
 func getProcessLogFuncs(dirs []os.FileInfo, mmDir string, lockPath *string) (func(string) bool, func(string) bool, func(string) error) {
 	newFileExist := func(newFile string) bool {
-		normalName := newFile[:len(newFile)-len(tmpFileSuffix)]
+		// the column-store compaction logs its new files under their final names
+		normalName := newFile
+		if IsTempleFile(newFile) {
+			normalName = newFile[:len(newFile)-len(tmpFileSuffix)]
+		}
 		for i := range dirs {
 			name := dirs[i].Name()
 			if name == normalName || newFile == name {
@@ -314,6 +318,11 @@ func getProcessLogFuncs(dirs []os.FileInfo, mmDir string, lockPath *string) (fun
 		for i := range dirs {
 			name := dirs[i].Name()
 			if nameInLog == name {
+				if !IsTempleFile(nameInLog) {
+					// already under its final name (column-store compaction): cutting the
+					// suffix off would rename the data file to a name without extension
+					return nil
+				}
 				lock := fileops.FileLockOption(*lockPath)
 				normalName := nameInLog[:len(nameInLog)-len(tmpFileSuffix)]
 				oldName := filepath.Join(mmDir, nameInLog)
